@@ -1,7 +1,7 @@
 //! `verif_harness --wide-scan <op-family> <log2 count> <cap>`: massive structured sampling (about 2^31 operand tuples per run) of the
 //! P32E2 / P16E1 binary operations and fused multiply-adds against the exact integer reference of scan.rs.  A SEARCH.
 use crate::scan::{dec, enc};
-use softposit::{P16E1, P32E2};
+use softposit::{P16E1, P32E2, PxE2};
 
 #[derive(Clone, Copy)]
 struct V { neg: bool, m: u128, e: i32 }           // value = (-1)^neg * m * 2^e, m > 0; zero: m == 0
@@ -65,6 +65,51 @@ pub fn reference(n: u32, es: u32, op: u8, a: u32, b: u32, c: u32) -> u32 {
     }
 }
 
+macro_rules! with_n {
+    ($n:expr, $f:ident, $($a:expr),*) => { match $n {
+        8 => $f::<8>($($a),*), 12 => $f::<12>($($a),*), 16 => $f::<16>($($a),*), 20 => $f::<20>($($a),*), 24 => $f::<24>($($a),*), 26 => $f::<26>($($a),*),
+        27 => $f::<27>($($a),*), 28 => $f::<28>($($a),*), 29 => $f::<29>($($a),*), 30 => $f::<30>($($a),*), 31 => $f::<31>($($a),*), _ => $f::<32>($($a),*) } }
+}
+const PX_WIDTHS: [u32; 12] = [8, 12, 16, 20, 24, 26, 27, 28, 29, 30, 31, 32];
+fn px2_fma<const N: u32>(op: u8, a: u32, b: u32, c: u32) -> u32 {
+    let (x, y, z) = (PxE2::<N>::from_bits(a), PxE2::<N>::from_bits(b), PxE2::<N>::from_bits(c));
+    match op { 4 => x.mul_add(y, z), 5 => x.mul_sub(y, z), _ => z.sub_product(x, y) }.to_bits()
+}
+/// an addend whose half-ulp lies at (or one or two binades around) the leading bit of the exact product a*b: the product then decides a
+/// tie of the addend's rounding, with everything below its leading bit acting as sticky
+fn halfulp_addend(n: u32, es: u32, a: u32, b: u32, r: &mut Rng) -> u32 {
+    let mask = ((1u64 << n) - 1) as u32;
+    let (va, vb) = match (val(n, es, a), val(n, es, b)) { (Some(x), Some(y)) if x.m != 0 && y.m != 0 => (x, y), _ => return (r.next() as u32) & mask };
+    let pm = va.m * vb.m; let lp = 127 - pm.leading_zeros() as i32 + va.e + vb.e;      // scale of the product
+    let mut fb = n as i32 - 1 - es as i32 - 2;
+    let mut sc = 0i32;
+    for _ in 0..3 {
+        sc = lp + 1 + fb + ((r.next() % 3) as i32 - 1);
+        let k = sc >> es; let reglen = if k >= 0 { k + 2 } else { -k + 1 };
+        fb = (n as i32 - 1 - reglen - es as i32).max(0);
+    }
+    let frac = if fb > 0 { (r.next() as u128) & ((1u128 << fb as u32) - 1) } else { 0 };
+    let p = enc(n, es, (1u128 << fb as u32) | frac, sc - fb, false);
+    if r.next() & 1 == 0 { p } else { p.wrapping_neg() & mask }
+}
+
+/// a partner b whose significand is floor or ceil of 2^u / significand(a): the exact product a*b is 2^u -/+ (something below the
+/// size of a's significand), i.e. it has a long run of ones or zeros after its leading bit - the products that random operands never give
+fn recip_partner(n: u32, es: u32, a: u32, r: &mut Rng) -> u32 {
+    let mask = ((1u64 << n) - 1) as u32;
+    let va = match val(n, es, a) { Some(x) if x.m > 1 => x, _ => return interesting(n, r) };
+    let la = 127 - va.m.leading_zeros();                       // bits(m_a) - 1
+    let maxfb = n - 1 - es - 2;                                // longest fraction of the format
+    let t = r.next();
+    let lb = 1 + (t % maxfb as u64) as u32;                    // wanted bits(m_b) - 1
+    let u = la + lb + 1;
+    let mut mb = (1u128 << u) / va.m + ((t >> 20) & 1) as u128;
+    if mb == 0 { mb = 1; }
+    let e = ((t >> 24) % 41) as i32 - 20 - (127 - mb.leading_zeros() as i32);
+    let p = enc(n, es, mb, e, false);
+    if (t >> 40) & 1 == 0 { p } else { p.wrapping_neg() & mask }
+}
+
 struct Rng(u64);
 impl Rng { fn next(&mut self) -> u64 { self.0 ^= self.0 << 13; self.0 ^= self.0 >> 7; self.0 ^= self.0 << 17; self.0 } }
 
@@ -88,9 +133,9 @@ fn interesting(n: u32, r: &mut Rng) -> u32 {
 
 pub fn wide_scan(fam: &str, log2: u32, cap: usize, seed: u64) {
     std::panic::set_hook(Box::new(|_| {}));
-    let (n, es) = if fam.starts_with("p16") { (16u32, 1u32) } else { (32, 2) };
+    let (n0, es) = if fam.starts_with("p16") { (16u32, 1u32) } else { (32, 2) };
     let fma = fam.ends_with("fma");
-    let mask = ((1u64 << n) - 1) as u32;
+    let px = fam.starts_with("px2");
     let nthreads = std::thread::available_parallelism().map(|x| x.get()).unwrap_or(4).min(16) as u64;
     let per = (1u64 << log2) / nthreads;
     let mut handles = Vec::new();
@@ -101,12 +146,15 @@ pub fn wide_scan(fam: &str, log2: u32, cap: usize, seed: u64) {
             let mut bad: Vec<String> = Vec::new();
             let mut i = 0u64;
             while i < per {
+                let n = if px { PX_WIDTHS[(r.next() % 12) as usize] } else { n0 };
+                let mask = ((1u64 << n) - 1) as u32;
                 let a = if r.next() & 1 == 0 { (r.next() as u32) & mask } else { interesting(n, &mut r) };
                 // partner: random / interesting / near a / near -a
                 let bsel = r.next();
                 let b = match bsel & 7 {
-                    0 | 1 => (r.next() as u32) & mask,
-                    2 | 3 => interesting(n, &mut r),
+                    0 => (r.next() as u32) & mask,
+                    1 => recip_partner(n, es, a, &mut r),
+                    2 | 3 => if bsel & 8 == 0 { interesting(n, &mut r) } else { recip_partner(n, es, a, &mut r) },
                     4 => a.wrapping_add(((bsel >> 8) % 9) as u32).wrapping_sub(4) & mask,
                     5 => a.wrapping_neg().wrapping_add(((bsel >> 8) % 9) as u32).wrapping_sub(4) & mask,
                     6 => (a ^ (1u32 << ((bsel >> 8) % (n as u64 - 1)))) & mask,
@@ -132,8 +180,9 @@ pub fn wide_scan(fam: &str, log2: u32, cap: usize, seed: u64) {
                     let prod = reference(n, es, 2, a, b, 0);
                     let csel = r.next();
                     let c = match csel & 7 {
-                        0 => (r.next() as u32) & mask,
-                        1 | 2 => interesting(n, &mut r),
+                        0 => if csel & 8 == 0 { (r.next() as u32) & mask } else { halfulp_addend(n, es, a, b, &mut r) },
+                        1 => halfulp_addend(n, es, a, b, &mut r),
+                        2 => interesting(n, &mut r),
                         3 | 4 => prod.wrapping_neg().wrapping_add(((csel >> 8) % 9) as u32).wrapping_sub(4) & mask,
                         5 => prod.wrapping_add(((csel >> 8) % 9) as u32).wrapping_sub(4) & mask,
                         6 => (prod.wrapping_neg() ^ (1u32 << ((csel >> 8) % (n as u64 - 1)))) & mask,
@@ -141,7 +190,9 @@ pub fn wide_scan(fam: &str, log2: u32, cap: usize, seed: u64) {
                     };
                     for op in 4..7u8 {
                         let want = reference(n, es, op, a, b, c);
-                        let got = std::panic::catch_unwind(|| if n == 32 {
+                        let got = std::panic::catch_unwind(|| if px {
+                            let sh = 32 - n; with_n!(n, px2_fma, op, a << sh, b << sh, c << sh) >> sh
+                        } else if n == 32 {
                             let (x, y, z) = (P32E2::from_bits(a), P32E2::from_bits(b), P32E2::from_bits(c));
                             match op { 4 => x.mul_add(y, z), 5 => x.mul_sub(y, z), _ => z.sub_product(x, y) }.to_bits()
                         } else {
@@ -149,7 +200,8 @@ pub fn wide_scan(fam: &str, log2: u32, cap: usize, seed: u64) {
                             match op { 4 => x.mul_add(y, z), 5 => x.mul_sub(y, z), _ => z.sub_product(x, y) }.to_bits() as u32
                         });
                         if !matches!(got, Ok(v) if v == want) && bad.len() < cap {
-                            bad.push(format!("p{} {} {:x} {:x} {:x}", n, ["mul_add", "mul_sub", "sub_product"][op as usize - 4], a, b, c));
+                            if px { let sh = 32 - n; bad.push(format!("px2 {} {:x} {:x} {:x} {:x}", ["mul_add", "mul_sub", "sub_product"][op as usize - 4], n, a << sh, b << sh, c << sh)); }
+                            else { bad.push(format!("p{} {} {:x} {:x} {:x}", n, ["mul_add", "mul_sub", "sub_product"][op as usize - 4], a, b, c)); }
                         }
                     }
                     i += 3;
